@@ -109,6 +109,17 @@ def check_bank(mtjs, order=None):
             mts = [extract(t) for t in live]
             for t in live:
                 grammar.extract(t, g, lex)
+        elif order == 'snapshot':
+            # a grammar that is used while it still grows: after every tree a binarized snapshot is taken
+            # (deterministic and markovized; the results are dropped), then extraction goes on
+            for mt in mts:
+                grammar.extract(build(mt), g, lex)
+                grammar.binarize(g)
+                grammar.binarize(g, reordering=grammar.reordering_optimal)
+                grammar.binarize(g, markov_opts={'v': 1, 'h': 1})
+                grammar.binarize(g, markov_opts={'v': 2, 'h': 1, 'nofanout': True})
+            grammar.extract(build(mts[-1]), g, lex)
+            mts = mts + [mts[-1]]
         else:
             for mt in mts:
                 ret = grammar.extract(build(mt, child_order=order), g, lex)
@@ -176,7 +187,7 @@ def run_chunk(chunk):
         if chunk['kind'] == 'single':
             for sh, k in sweep.iter_shapes(chunk):
                 for mt in label_variants(sh, chunk['dev']):
-                    for order in (None, 'rev', 'export+raise', 'written') + (('collapse',) if k else ()):
+                    for order in (None, 'rev', 'export+raise', 'written', 'snapshot') + (('collapse',) if k else ()):
                         vs, nt = check_bank([mt.to_json()], order)
                         take(vs, nt, (mt.key(), order))
                 res.sample({'treebank': [model.mt_str(mt.root, mt.toks)]})
